@@ -155,4 +155,57 @@ example : ∃ r off, parseRecord ("_RWS.wa :=".toList ++ exampleSyn.render ++ ";
     exampleSyn_wf (by unfold Harmless; decide)
   exact ⟨_, _, by simpa [exampleSyn] using this⟩
 
+/-! ### the two helper functions the denotation shares with the parser are pinned independently
+
+`Syn.denote` is defined with the parser's own `digitsToNat` and `setField`, so `parse_*_correct` alone cannot see a change
+in either (model-side mutants `digits_base`, `setField_appends_duplicate` survived).  These two theorems state what
+the helpers mean. -/
+
+/-- digit strings are read in base ten: appending a digit multiplies by ten and adds its value -/
+theorem digitsToNat_base_ten (ds : List Char) (c : Char) :
+    digitsToNat [] = 0 ∧ digitsToNat (ds ++ [c]) = 10 * digitsToNat ds + (c.toNat - '0'.toNat) := by
+  constructor
+  · rfl
+  · simp [digitsToNat, List.foldl_append]
+
+example : digitsToNat "1204".toList = 1204 ∧ digitsToNat "007".toList = 7 := by decide
+
+/-- assigning a field behaves like assignment to a Python dict: the field then has the new value, every other
+field keeps its value, and an existing name is overwritten in place (no second entry) -/
+theorem setField_assign (fs : List (List Char × GVal)) (k k' : List Char) (v : GVal) :
+    (setField fs k v).lookup k' = (if k' = k then some v else fs.lookup k') ∧
+    ((setField fs k v).map Prod.fst = if k ∈ fs.map Prod.fst then fs.map Prod.fst else fs.map Prod.fst ++ [k]) := by
+  induction fs with
+  | nil =>
+    constructor
+    · by_cases h : k' = k
+      · simp [setField, List.lookup, h]
+      · have hb : (k' == k) = false := by simpa using h
+        simp [setField, List.lookup, h, hb]
+    · simp [setField]
+  | cons p r ih =>
+    obtain ⟨p1, p2⟩ := p
+    obtain ⟨ih1, ih2⟩ := ih
+    by_cases hp : p1 = k
+    · subst hp
+      constructor
+      · by_cases h : k' = p1
+        · simp [setField, List.lookup_cons, h]
+        · have hb : (k' == p1) = false := by simpa using h
+          simp [setField, List.lookup_cons, h, hb]
+      · simp [setField]
+    · constructor
+      · simp only [setField, hp, if_false, List.lookup_cons]
+        by_cases h1 : k' = p1
+        · subst h1
+          have : ¬ k' = k := hp
+          simp [this]
+        · have : (k' == p1) = false := by simpa using h1
+          simp only [this]
+          exact ih1
+      · simp only [setField, hp, if_false, List.map_cons, List.mem_cons, ih2]
+        have hk : ¬ k = p1 := fun e => hp e.symm
+        simp only [hk, false_or]
+        split <;> simp
+
 end GT.C09
